@@ -535,6 +535,9 @@ func (g *Gen) opMath() (sim.Op, bool) {
 		g.tag++
 		return sim.Op{K: "math", S: []sim.Str{g.str(fmt.Sprintf("<m:r><m:t>x%d</m:t></m:r>", g.tag))}, I: []int{r.Intn(2)}}, true
 	}
+	if r.Chance(0.4) {
+		return sim.Op{K: "math", S: []sim.Str{g.str(r.Pick("</x><x>", "</m:oMath><m:oMath>", "<a>", "</a>", "<m:r><m:t>x</m:t>", "a<b", "x & y", "<m:r/></m:oMathPara>", "<!-- c", "<![CDATA[", "&#0;", "<m:r xmlns:m=\"u\"/>"))}, I: []int{r.Intn(2)}}, true
+	}
 	return sim.Op{K: "math", S: []sim.Str{g.str(g.Text())}, I: []int{r.Intn(2)}}, true
 }
 
